@@ -7,7 +7,7 @@ from scoda.midi.midi_file import MidiFile
 
 META = {
     "bounds": {
-        "quick": "routing: 3 file tracks (3 notes, two of them on the same channel and pitch in different tracks, 2 time signatures, 1 key signature; symbolic delta times 0..40, velocities 1..127, "
+        "quick": "IEEE part (QF_BVFP, sliced from convert's source): ppq {480,960,100} x 1 delta of 10 bits, ppq 480/960 x 2 accumulated deltas of 6/5 bits; routing: 3 file tracks (3 notes, two of them on the same channel and pitch in different tracks, 2 time signatures, 1 key signature; symbolic delta times 0..40, velocities 1..127, "
                  "note-on-velocity-0 used as note-off on one track) x 9 groupings / meta selections / meta target indices at resolution 24; "
                  "rescaling (exact part): one track of 2 notes + signature, delta times 0..200, ticks_per_beat in {3,6,12,24,48,96,192,384} "
                  "(24/ppq a power of two: every float operation certified exact)",
@@ -175,3 +175,36 @@ def queries(tier, seed):
     for tpb in (12, 96):
         qs.append(q_rescale(tpb, 100, RESCALE_PLAN2, "two"))
     return qs
+
+
+# ---- IEEE-754 part (QF_BVFP), see symx/fpkern.py
+def _fp_jobs(tier):
+    if tier == "quick":
+        return [(480, 1, 10), (960, 1, 10), (100, 1, 10), (480, 2, 6), (960, 2, 5)]
+    return [(480, 2, 8), (960, 2, 8), (480, 1, 14), (96 * 5, 1, 12), (100, 2, 6)]
+
+
+def _fp_one(job):
+    from symx import fpkern
+    ppq, k, bits = job
+    return fpkern.check(MidiFile.convert, ppq, k, bits, timeout_s=1500)
+
+
+def extra_checks(ctl, tier, seed):
+    import multiprocessing as mp
+    jobs = _fp_jobs(tier)
+    with mp.get_context("fork").Pool(min(len(jobs), 8)) as pool:
+        res = pool.map(_fp_one, jobs)
+    out = []
+    for job, r in zip(jobs, res):
+        r["id"] = f"ieee_rescale/ppq{job[0]}/k{job[1]}/bits{job[2]}"
+        r["clause"] = "nearest_tick_no_accumulation_ieee"
+        if r["status"] == "violated":
+            r["inputs"] = {"ppq": job[0], "deltas": r["deltas"]}
+        out.append(r)
+    return out
+
+
+def replay_extra(xid, inputs):
+    from symx import fpkern
+    return fpkern.replay(inputs["ppq"], inputs["deltas"])
